@@ -448,12 +448,12 @@ func checkC12(tier string) int {
 			"known_findings_hit": knownHit,
 			"rewrite_report":     map[string]any{"os_files": b.Report.OSFiles, "time_rewrites": b.Report.TimeRewrites, "rand_files": b.Report.RandFiles, "go_stmts": b.Report.GoStmts, "go_stmts_turned_into_tasks": b.Report.GoRewritten, "blocking_statements_bracketed": b.Report.SyncBracketed, "blocking_operations_not_modelled": b.Report.SyncUnmodelled, "numcpu_rewrites": b.Report.NumCPURewrites, "selects_polled_in_tape_order": b.Report.SelectsPolled, "selects": b.Report.Selects, "per_iteration_loopvar": b.Report.PerIterLoopVar},
 			"determinism_canary": canaryNote,
-			"real_vs_stub":       "real: goag, generator, specification, cmd/goag (CLI mode), templates, kin-openapi loader, yaml, x/tools/imports, kernel FS under scratch; stub: Go map iteration order inside goag's packages (tape), clock (simulated)",
+			"real_vs_stub":       "real: goag, generator, specification, cmd/goag (CLI mode), templates, kin-openapi loader, yaml, x/tools/imports, kernel FS under scratch; stub: Go map iteration order inside goag's packages and the kin-openapi loader (tape), clock and timers (simulated), processor count (ambient input), scheduling of goroutines the generator starts itself (tape; none today)",
 			"build_s":            b.BuildS,
 			"repo_tree_hash":     b.TreeHash,
 		},
 		Assumptions: []string{
-			"map iteration inside dependencies (kin-openapi, yaml, x/tools) is not tape-controlled; only the separate-process leg can see it",
+			"map iteration inside yaml and x/tools is not tape-controlled (the kin-openapi loader's is); only the separate-process leg can see it",
 			"sites listed under uncontrolled_sites are not permuted",
 			"a run in which both the baseline and the permuted run fail is not compared (error messages are not generated files)",
 			"Go toolchain " + goVersion(),
